@@ -766,6 +766,7 @@ bool TypeAuditor::ViRecursion(Cursor iter) {
     return false;
   }
 
+  bool isDeduced = false;
   { 
     const auto guard = noWarnings.CreateGuard();
     for (auto retries = typeDeductionDepth; retries > 0; --retries) {
@@ -778,10 +779,20 @@ bool TypeAuditor::ViRecursion(Cursor iter) {
         return false;
       }
       if (std::get<Typification>(newIteration.value()) == std::get<Typification>(iterationValue.value())) {
+        isDeduced = true;
         break;
       }
       iterationValue = newIteration;
     }
+  }
+  if (!isDeduced) {
+    OnError(
+      SemanticEID::typesNotEqual,
+      iter(iterationIndex).pos.start,
+      iterationValue.value(),
+      initType.value()
+    );
+    return false;
   }
 
   if (isFull) {
